@@ -37,27 +37,74 @@ def _mentions_mask(node, var=None):
     return False
 
 
-def _thread_local_boundary(ctx, mod):
-    n = 0
-    for cname in ("Env", "InternalEnvironDict"):
-        cls = mod.cls(cname)
-        ms = class_methods(cls)
-        init = ms.get("__init__")
-        tl = {t.attr for x in (walk_local(init) if init is not None else []) if isinstance(x, ast.Assign) and isinstance(x.value, ast.Call) and call_name(x.value) == "threading.local" for t in x.targets if isinstance(t, ast.Attribute) and unparse(t.value) == "self"}
-        if not tl:
-            continue
-        # views: properties that expose a thread-local container (`_local` -> self._thread_local.__dict__, `_overlay_stack`)
-        views = {nm for nm, f in ms.items() if any("property" in unparse(d) for d in f.decorator_list) and any(isinstance(a, ast.Attribute) and a.attr in tl and unparse(a.value) == "self" for a in ast.walk(f))}
+class _TLModel:
+    """Who keeps per-thread state in environ.py, read from the classes themselves.  For each class: ``tl`` - attributes bound
+    to ``threading.local()`` in ``__init__``; ``views`` - properties that expose such an object's container (`_local` ->
+    `self._thread_local.__dict__`, `_overlay_stack`); ``parts`` - attributes bound in ``__init__`` to an instance of another
+    class of the model (`Env._d` *is* the InternalEnvironDict).  With ``parts`` an expression names the same container
+    whether it is written inside the owning class (`self._local`) or from the outside (`self._d._local`): it does not
+    matter in which of the two classes an accessor lives."""
 
-        def root(e):
-            while isinstance(e, (ast.Attribute, ast.Subscript)):
-                if isinstance(e, ast.Attribute) and unparse(e.value) == "self" and (e.attr in tl or e.attr in views):
-                    return e.attr
-                e = e.value
-            return None
+    CLASSES = ("Env", "InternalEnvironDict")
+
+    def __init__(self, mod):
+        self.ms, self.tl, self.views, self.parts = {}, {}, {}, {}
+        for c in self.CLASSES:
+            ms = class_methods(mod.cls(c))
+            init = ms.get("__init__")
+            stores = [(t.attr, x.value) for x in (walk_local(init) if init is not None else []) if isinstance(x, ast.Assign) for t in x.targets if isinstance(t, ast.Attribute) and unparse(t.value) == "self"]
+            tl = {a_ for a_, v in stores if isinstance(v, ast.Call) and call_name(v) == "threading.local"}
+            self.ms[c] = ms
+            self.tl[c] = tl
+            self.views[c] = {nm for nm, f in ms.items() if any("property" in unparse(d) for d in f.decorator_list) and any(isinstance(a_, ast.Attribute) and a_.attr in tl and unparse(a_.value) == "self" for a_ in ast.walk(f))}
+            self.parts[c] = {a_: call_name(v) for a_, v in stores if isinstance(v, ast.Call) and not v.args and not v.keywords and call_name(v) in self.CLASSES and call_name(v) != c}
+
+    def owner(self, e, cname):
+        """the class (of the model) of the object ``e`` evaluates to inside a method of ``cname``, if it can be read off"""
+        if isinstance(e, ast.Name):
+            return cname if e.id == "self" else None
+        if isinstance(e, ast.Attribute):
+            o = self.owner(e.value, cname)
+            return self.parts[o].get(e.attr) if o is not None else None
+        return None
+
+    def root(self, e, cname):
+        """(owning class, attribute) of the thread-local object / view that ``e`` is or is an element of, else None"""
+        while isinstance(e, (ast.Attribute, ast.Subscript)):
+            if isinstance(e, ast.Attribute):
+                o = self.owner(e.value, cname)
+                if o is not None and (e.attr in self.tl[o] or e.attr in self.views[o]):
+                    return (o, e.attr)
+            e = e.value
+        return None
+
+    def root_via_local(self, e, cname, defs):
+        """root(e), looking through one local alias (`local = self._local`)"""
+        r = self.root(e, cname)
+        if r is None and isinstance(e, ast.Name):
+            rs = {self.root(d.value, cname) if d.value is not None and d.kind in ("assign", "walrus") else None for d in defs.get(e.id, [])}
+            if len(rs) == 1:
+                r = next(iter(rs))
+        return r
+
+    def method(self, call, cname):
+        """(class, FunctionDef) of a method of a class of the model called on self or on a part of self"""
+        if isinstance(call, ast.Call) and isinstance(call.func, ast.Attribute):
+            o = self.owner(call.func.value, cname)
+            if o is not None and call.func.attr in self.ms[o] and not any("property" in unparse(d) for d in self.ms[o][call.func.attr].decorator_list):
+                return o, self.ms[o][call.func.attr]
+        return None
+
+
+def _thread_local_boundary(ctx, mod, model):
+    n = 0
+    for cname in model.CLASSES:
+        ms = model.ms[cname]
+        if not model.tl[cname] and not any(model.tl[c2] for c2 in model.parts[cname].values()):
+            continue
 
         for nm, f in ms.items():
-            if nm in views or nm == "__init__":
+            if nm in model.views[cname] or nm == "__init__":
                 continue
             defs = df.all_defs(f)
             params = {a_.arg for a_ in f.args.args[1:] + f.args.kwonlyargs}
@@ -66,85 +113,106 @@ def _thread_local_boundary(ctx, mod):
                     v = r.value
                     if isinstance(v, ast.Name) and len(defs.get(v.id, [])) == 1 and defs[v.id][0].value is not None:
                         v = defs[v.id][0].value
-                    rt = root(v) if _uncopy(v) is v else None
-                    if root(_uncopy(v)) is not None or rt is not None:
+                    rt = model.root(v, cname) if _uncopy(v) is v else None
+                    if model.root(_uncopy(v), cname) is not None or rt is not None:
                         n += 1
-                        ctx.ob("R5", f"{EN}:{cname}.{nm}", f"`{short(r, 50)}` hands out thread-local state as a copy", rt is None, key=f"{cname}.{nm}|thread-local-container-escapes", where=loc(r), detail=None if rt is None else f"`self.{rt}` is the calling thread's own container: whoever receives it shares every later push/pop/update with this thread")
+                        ctx.ob("R5", f"{EN}:{cname}.{nm}", f"`{short(r, 50)}` hands out thread-local state as a copy", rt is None, key=f"{cname}.{nm}|thread-local-container-escapes", where=loc(r), detail=None if rt is None else f"`{rt[0]}.{rt[1]}` is the calling thread's own container: whoever receives it shares every later push/pop/update with this thread")
             for a in [x for x in walk_local(f) if isinstance(x, ast.Assign)]:
                 for t in a.targets:
                     # (the container itself - `self.<local>.stack = x` - not an element stored under a key of a view)
-                    if isinstance(t, (ast.Attribute, ast.Subscript)) and root(t) in tl and isinstance(a.value, ast.Name) and a.value.id in params:
+                    rt = model.root(t, cname) if isinstance(t, (ast.Attribute, ast.Subscript)) else None
+                    if rt is not None and rt[1] in model.tl[rt[0]] and isinstance(a.value, ast.Name) and a.value.id in params:
                         n += 1
                         ctx.ob("R5", f"{EN}:{cname}.{nm}", f"`{short(a, 50)}` installs a copy of what the caller passed", False, key=f"{cname}.{nm}|caller-object-adopted-as-thread-local", where=loc(a), detail=f"the parameter `{a.value.id}` becomes this thread's state by reference: two threads then mutate one object")
             # in-place installation (`local.clear(); local.update(param)`) copies the content: fine, counted as an instance
-            if any(isinstance(c.func, ast.Attribute) and c.func.attr == "update" and c.args and isinstance(c.args[0], ast.Name) and c.args[0].id in params and (root(c.func.value) is not None or (isinstance(c.func.value, ast.Name) and any(d.value is not None and root(d.value) is not None for d in defs.get(c.func.value.id, [])))) for c in calls_in(f)):
+            if any(isinstance(c.func, ast.Attribute) and c.func.attr == "update" and c.args and isinstance(c.args[0], ast.Name) and c.args[0].id in params and model.root_via_local(c.func.value, cname, defs) is not None for c in calls_in(f)):
                 n += 1
                 ctx.ob("R5", f"{EN}:{cname}.{nm}", "installs the caller's values by copying them into the thread's own container", True, key=f"{cname}.{nm}|install-by-copy")
     if n < 2 and not ctx.violations:
-        raise AnalysisError(f"{EN}: only {n} thread-local hand-over sites found (get_local_overrides / set_local_overrides expected)")
+        raise AnalysisError(f"{EN}: only {n} thread-local hand-over sites found (the accessor that copies the thread-local overrides out and the one that installs them expected)")
 
 
-
-def _handover_complete(ctx, mod):
+def _handover(ctx, mod, model):
     """Env.get_swapped_values() is what ProcProxyThread / PopenThread read before start() (R3).  If it drops or rewrites
-    entries, the worker's view differs from the spawner's: a variable masked with DELETE_VAR shows its global value again."""
-    classes = {c: class_methods(mod.cls(c)) for c in ("Env", "InternalEnvironDict")}
-    tl = set()
-    views = set()
-    for c, ms in classes.items():
-        init = ms.get("__init__")
-        t_ = {t.attr for x in (walk_local(init) if init is not None else []) if isinstance(x, ast.Assign) and isinstance(x.value, ast.Call) and call_name(x.value) == "threading.local" for t in x.targets if isinstance(t, ast.Attribute) and unparse(t.value) == "self"}
-        tl |= t_
-        views |= {nm for nm, f in ms.items() if any("property" in unparse(d) for d in f.decorator_list) and any(isinstance(a, ast.Attribute) and a.attr in t_ and unparse(a.value) == "self" for a in ast.walk(f))}
-
-    def rooted(e):
-        while isinstance(e, (ast.Attribute, ast.Subscript)):
-            if isinstance(e, ast.Attribute) and unparse(e.value) == "self" and (e.attr in tl or e.attr in views):
-                return True
-            e = e.value
-        return False
-
+    entries, the worker's view differs from the spawner's: a variable masked with DELETE_VAR shows its global value again.
+    The accessor is followed through argument-less methods of Env / of its dict, so it does not matter in which of the two
+    classes the copy is made.  Returns (every return is a copy of the container: bool, the containers handed over)."""
     sites = []
 
-    def whole(e, fn, depth=0):
-        """e evaluates to a complete copy of (or the whole of) a thread-local container"""
+    def whole(e, fn, cname, depth=0):
+        """(e evaluates to a complete copy of - or the whole of - a thread-local container; it is a copy; the containers)"""
         if depth > 4:
-            return False
+            return False, False, set()
         if isinstance(e, ast.Name):
             ds = df.all_defs(fn).get(e.id, [])
-            return len(ds) == 1 and ds[0].value is not None and whole(ds[0].value, fn, depth + 1)
+            if len(ds) == 1 and ds[0].value is not None:
+                return whole(ds[0].value, fn, cname, depth + 1)
+            return False, False, set()
         inner = _uncopy(e)
         if inner is not e:
-            return rooted(inner) or whole(inner, fn, depth + 1)
-        if rooted(e):
-            return True
-        if isinstance(e, ast.Call) and isinstance(e.func, ast.Attribute) and not e.args and not e.keywords:
-            for c, ms in classes.items():
-                m = ms.get(e.func.attr)
-                if m is not None and unparse(e.func.value) in ("self", "self._d"):
-                    rs = [r for r in walk_local(m) if isinstance(r, ast.Return) and r.value is not None]
-                    ok = bool(rs)
-                    for r in rs:
-                        o = whole(r.value, m, depth + 1)
-                        sites.append((f"{c}.{e.func.attr}", r, o))
-                        ok = ok and o
-                    return ok
-        return False
+            rt = model.root(inner, cname)
+            if rt is not None:
+                return True, True, {rt}
+            w, _, rts = whole(inner, fn, cname, depth + 1)
+            return w, w, rts
+        rt = model.root(e, cname)
+        if rt is not None:
+            return True, False, {rt}
+        if isinstance(e, ast.Call) and not e.args and not e.keywords:
+            tgt = model.method(e, cname)
+            if tgt is not None:
+                c, m = tgt
+                rs = [r for r in walk_local(m) if isinstance(r, ast.Return) and r.value is not None]
+                ok, cp, rts = bool(rs), bool(rs), set()
+                for r in rs:
+                    o, o_cp, o_rts = whole(r.value, m, c, depth + 1)
+                    sites.append((f"{c}.{e.func.attr}", r, o))
+                    ok, cp, rts = ok and o, cp and o_cp, rts | o_rts
+                return ok, cp, rts
+        return False, False, set()
 
-    g = classes["Env"].get("get_swapped_values")
+    g = model.ms["Env"].get("get_swapped_values")
     if g is None:
         raise AnchorMissing(f"{EN}:Env.get_swapped_values")
     rs = [r for r in walk_local(g) if isinstance(r, ast.Return) and r.value is not None]
     if not rs:
         raise AnalysisError(f"{EN}:Env.get_swapped_values returns nothing")
+    copied, roots = True, set()
     for r in rs:
-        sites.append(("Env.get_swapped_values", r, whole(r.value, g)))
+        o, cp, rts = whole(r.value, g, "Env")
+        sites.append(("Env.get_swapped_values", r, o))
+        copied, roots = copied and o and cp, roots | rts
     seen = set()
     for q, r, ok in sites:
         if (q, r.lineno) in seen:
             continue
         seen.add((q, r.lineno))
         ctx.ob("R6", f"{EN}:{q}", f"`{short(r, 60)}` hands over the whole thread-local view (a plain copy: no entry - a DELETE_VAR mask in particular - is filtered out or rewritten on the way to the worker thread)", ok, key=f"{q}|handover-not-whole", where=loc(r))
+    # ... and the container all of this ends in is the thread-local layer of the variable store (not, say, the overlay stack)
+    store_cls = model.parts["Env"].get("_d")
+    ctx.ob("R6", f"{EN}:Env.get_swapped_values", "what is handed over is the thread-local layer of the variable store (" + (", ".join(f"{c}.{a_}" for c, a_ in sorted(roots)) or "nothing recognised") + ")", len(roots) == 1 and store_cls is not None and all(c == store_cls for c, _ in roots), key="Env.get_swapped_values|handover-not-the-override-layer", where=loc(g))
+    return copied, roots
+
+
+def _installer(model):
+    """Env.set_swapped_values(view) is what the worker threads call first thing in run().  Followed through methods of Env /
+    of its dict that are handed the view as it is: (class, function, name of the parameter holding the view) of the
+    function that does the work."""
+    cname, fn = "Env", model.ms["Env"].get("set_swapped_values")
+    if fn is None:
+        raise AnchorMissing(f"{EN}:Env.set_swapped_values")
+    p = param_name(fn, 0)
+    for _ in range(4):
+        nxt = None
+        for c in calls_in(fn):
+            tgt = model.method(c, cname)
+            if tgt is not None and len(c.args) == 1 and not c.keywords and isinstance(c.args[0], ast.Name) and c.args[0].id == p and not [d for d in df.all_defs(fn).get(p, []) if d.kind != "param"]:
+                nxt = tgt
+        if nxt is None:
+            break
+        cname, fn = nxt
+        p = param_name(fn, 0)
+    return cname, fn, p
 
 
 def _through_predicates(facts, meths):
@@ -284,6 +352,9 @@ def check(ctx):
                     layer_names.add(n_)
                 if d.kind == "assign" and d.value is not None and unparse(d.value) in ("dict(self._d)",):
                     layer_names.add(n_)
+        # ... under every local name they go by (a merged copy built by a helper comes back under the caller's own local)
+        for n_ in sorted(layer_names - {"self._d"}):
+            layer_names |= alias_class(defs, n_)
         n_reads = 0
         for node in c2.nodes:
             if node.ast is None or node.kind in ("with_exit", "finally"):
@@ -372,7 +443,8 @@ def check(ctx):
             ok = True
     ctx.ob("R2", f"{EN}:Env.__iter__", "iteration decides a key's mask at the top-most overlay that contains it (a value above a mask unmasks, as in [] / in / detype)", ok, key="__iter__|mask-not-shadowed", where=loc(it))
     dt = meths["detype"]
-    loops = [n for n in ast.walk(dt) if isinstance(n, ast.For) and "_overlay_stack" in unparse(n.iter)]
+    # (helper-transparent view: the merge of the layers may be a phase of its own)
+    loops = [n for n in ast.walk(flat(ctx, dt, depth=2, skip=("get_detyper",))) if isinstance(n, ast.For) and "_overlay_stack" in unparse(n.iter)]
     ok = bool(loops) and all(not unparse(l.iter).startswith("reversed(") and any(last_attr(c) == "update" for c in calls_in(ast.Module(body=l.body, type_ignores=[]), local=False)) for l in loops)
     ctx.ob("R2", f"{EN}:Env.detype", "overlays are merged bottom-up with update() (top-most wins)", ok, key="detype|overlay-order")
     da = meths.get("detype_all")
@@ -401,22 +473,35 @@ def check(ctx):
         envuse = [n for n in rc.nodes if n.ast is not None and n.kind in ("stmt", "if", "while", "for", "with") and n not in inst and any("XSH.env" in unparse(x) for x in ([n.ast.test] if n.kind in ("if", "while") else [n.ast.iter] if n.kind == "for" else n.ast.items if n.kind == "with" else [n.ast]))]
         ok = bool(inst) and all(rc.dominated(u, lambda m_: m_ in inst) for u in envuse)
         ctx.ob("R3", f"{rel}:{q}.run", f"the inherited view is installed before any other environment access ({len(envuse)} uses)", ok, key=f"{q}|env-use-before-install", where=loc(run))
-    ied = mod.cls("InternalEnvironDict")
-    im = class_methods(ied)
-    glo = im.get("get_local_overrides")
-    copies = glo is not None and any(isinstance(r, ast.Return) and r.value is not None and _uncopy(r.value) is not r.value and "_local" in unparse(_uncopy(r.value)) for r in walk_local(glo))
-    ok = "_local" in im and "self._thread_local.__dict__" in unparse(im["_local"]) and copies
-    ctx.ob("R3", f"{EN}:InternalEnvironDict", "the override layer is a threading.local dict; the view handed to a worker is a copy", ok, key="ied|local-shape")
-    _handover_complete(ctx, mod)
-    _thread_local_boundary(ctx, mod)
-    slo = im.get("set_local_overrides")
-    ok = slo is not None and "clear()" in unparse(slo) and "update(" in unparse(slo)
-    ctx.ob("R3", f"{EN}:InternalEnvironDict.set_local_overrides", "installing a view replaces the thread's own layer only", ok, key="ied|install-shape")
+    model = _TLModel(mod)
+    # the view handed to a worker: whatever Env.get_swapped_values() ends in - in Env itself or in an accessor of its dict
+    copied, roots = _handover(ctx, mod, model)
+    # ... is a copy of a container that lives in threading.local storage: a property returning `self.<threading.local>.__dict__`
+    is_tl = bool(roots) and all(a_ in model.views[c] and any(isinstance(r, ast.Return) and r.value is not None and any(f"self.{t}.__dict__" in unparse(r.value) for t in model.tl[c]) for r in walk_local(model.ms[c][a_])) for c, a_ in roots)
+    ctx.ob("R3", f"{EN}:InternalEnvironDict", "the override layer is a threading.local dict; the view handed to a worker is a copy", is_tl and copied, key="ied|local-shape")
+    _thread_local_boundary(ctx, mod, model)
+    # installing: the function that does the work empties and refills the thread's own container - the same one
+    icls, ifn, iparam = _installer(model)
+    idefs = df.all_defs(ifn)
+    icfg = CFG(ifn)
+    meth_calls = [(n, c) for n in icfg.nodes if n.kind == "stmt" and isinstance(n.ast, ast.Expr) for c in [n.ast.value] if isinstance(c, ast.Call) and isinstance(c.func, ast.Attribute)]
+    clears = [(n, model.root_via_local(c.func.value, icls, idefs)) for n, c in meth_calls if c.func.attr == "clear" and not c.args and not c.keywords]
+    fills = [(n, model.root_via_local(c.func.value, icls, idefs)) for n, c in meth_calls if c.func.attr == "update" and len(c.args) == 1 and not c.keywords and isinstance(c.args[0], ast.Name) and c.args[0].id == iparam]
+    fills = [(n, rt) for n, rt in fills if rt is not None]
+    ok = bool(fills) and not [d for d in idefs.get(iparam, []) if d.kind != "param"]
+    for n, rt in fills:
+        before = [m for m, rt2 in clears if rt2 == rt]
+        ok = ok and rt in roots and bool(before) and icfg.dominated(n, lambda m_: m_ in before)
+    ctx.ob("R3", f"{EN}:{icls}.{ifn.name}", "installing a view replaces the thread's own layer only: the container the view was copied from is emptied, then filled with the view", ok, key="ied|install-shape", where=loc(ifn))
 
     # ------------------------------------------------------------------ R4
     # taint: values derived from iterating self._d (ChainMap over the thread-local layer) stored in self.<attr>
     n_sinks = 0
     for name, fn in meths.items():
+        # on the helper-transparent view: the mapping that is memoised may be built by a helper of the method (a phase of
+        # detype() extracted into its own method) - its provenance is then only visible with the helper expanded in place
+        if any(isinstance(n, ast.Assign) and not isinstance(n.value, ast.Constant) and any(isinstance(t, ast.Attribute) and isinstance(t.value, ast.Name) and t.value.id == "self" for t in n.targets) for n in walk_local(fn)):
+            fn = flat(ctx, fn, depth=2, skip=("get_detyper", "rawkeys", "_resolve_default", "get_converter"))
         defs = df.all_defs(fn)
         c4 = None
         for n in walk_local(fn):
@@ -429,9 +514,10 @@ def check(ctx):
                 # in-place growth of a local dict from items of a tainted dict
                 tainted = any(t == ("attr", "self._d") for t in lv)
                 if isinstance(nval, ast.Name):
-                    vname = nval.id
+                    # (the mapping under every local name it goes by: plain copies in either direction are one object)
+                    vnames = alias_class(defs, nval.id)
                     for s in walk_local(fn):
-                        if isinstance(s, ast.Assign) and isinstance(s.targets[0], ast.Subscript) and unparse(s.targets[0].value) == vname:
+                        if isinstance(s, ast.Assign) and isinstance(s.targets[0], ast.Subscript) and unparse(s.targets[0].value) in vnames:
                             loop = next((a for a in ancestors(s) if isinstance(a, ast.For)), None)
                             if loop is not None:
                                 il = df.leaves(defs, loop.iter)
